@@ -15,6 +15,16 @@ def fnd(rule, v, what, bb=None, detail=""):
     return Finding(rule, v.b.path, what, at, detail)
 
 
+def und(rule, v, what, bb=None, detail=""):
+    f = fnd(rule, v, what, bb, detail)
+    f.undecided = True
+    return f
+
+
+def is_recursive(v, fname):
+    return any(c.fn is not None and erase_generics(npath(c.path)) == "ValuePointerRef::" + fname for _, c in v.calls())
+
+
 def find(crate, name):
     for b in crate.bodies:
         if erase_generics(npath(b.path)) == "ValuePointerRef::" + name:
@@ -100,8 +110,15 @@ def run(ctx):
             continue
         v = View(b)
         bb, info = self_switch(v, None)
-        if not info:
-            res.add(rule, 3, [fnd(rule, v, "does not dispatch on the pointer's variant")])
+        if not info or not is_recursive(v, fname) or v.loops() or not (info["place"] and strip_refs(canon(v, v.origin_place(info["place"]))) == ("param", 1)):
+            # a loop / iterator formulation: the three-arm table of the recursive form does not apply.  What can still be
+            # said for any formulation: the answer may lie arbitrarily deep (behind any number of index steps), so code
+            # that neither loops, nor recurses, nor calls into the library's own code looks at a bounded prefix only.
+            local_calls = [c for _, c in v.calls() if c.fn is not None and c.krate == "deserr"]
+            if not v.loops() and not is_recursive(v, fname) and not local_calls:
+                res.add(rule, 3, [fnd(rule, v, "%s examines a bounded number of steps (no loop, no recursion): keys behind a longer run of index steps are not found" % fname)])
+            else:
+                res.add(rule, 3, [und(rule, v, "%s is not written as a recursion over the pointer's variant: its table is not extracted (undecided)" % fname)])
             continue
         arms = {}
         for var in ("Origin", "Key", "Index"):
@@ -160,13 +177,13 @@ def run(ctx):
     fs = []
     ob = 6
     if b is None:
-        fs.append(Finding("C19.OWNED", "to_owned", "not found", ""))
+        fs.append(Finding("C19.OWNED", "to_owned", "not found", "", undecided=True))
     else:
         v = View(b)
         bb, info = self_switch(v, None)
         loops = v.loops()
-        if not info or not loops or bb not in loops[0][1]:
-            fs.append(fnd("C19.OWNED", v, "to_owned does not walk the pointer in a loop"))
+        if not info or not loops or bb not in loops[0][1] or info["place"] is None:
+            fs.append(und("C19.OWNED", v, "to_owned does not walk the pointer in a loop over its variant: its table is not extracted (undecided)"))
         else:
             body = loops[0][1]
             cur = info["place"]["l"]
@@ -175,52 +192,90 @@ def run(ctx):
             if not (len(init) == 1 and strip_refs(canon(v, v.origin_rv(init[0][3]["rv"], init[0][1]))) == ("param", 1)):
                 fs.append(fnd("C19.OWNED", v, "the walk does not start at self"))
             ot = v.variant_target(info, "Origin")
-            if ot is None or (ot in body and any(x in body for x in v.reachable(ot) if x != ot and False)):
+            if ot is None:
                 fs.append(fnd("C19.OWNED", v, "Origin does not end the walk"))
-            elif any(s in body for s in v.succ[ot]) and ot in body:
+            elif ot in body and any(s in body for s in v.succ[ot]):
                 fs.append(fnd("C19.OWNED", v, "Origin does not end the walk"))
-            pushes = {}
-            for var, comp, fld in (("Key", "Key", "key"), ("Index", "Index", "index")):
-                t = v.variant_target(info, var)
-                reg = skeleton.dominated(v, t) & body if t is not None else set()
-                ps = [x for x in reg if v.callee(x) is not None and v.callee(x).fn is not None and v.callee(x).base() == "std::vec::Vec::push"]
-                if len(ps) != 1:
-                    fs.append(fnd("C19.OWNED", v, "a %s step does not push exactly one component" % var))
+            # every push inside the loop: which components can it add, onto what, by which method
+            PUSHERS = ("push", "push_back", "push_front", "insert", "extend", "append")
+            pushes = [(x, c) for x, c in v.calls() if x in body and c.fn is not None and c.name in PUSHERS and (c.krate in ("alloc", "std", "core"))]
+            comps = {}    # variant -> [(push bb, method, payload term)]
+            unknown_push = False
+            for x, c in pushes:
+                args = v.blocks[x]["term"]["args"]
+                if len(args) < 2:
+                    unknown_push = True
                     continue
-                if any(v.blocks[x]["term"]["k"] == "switch" for x in reg):
-                    fs.append(fnd("C19.OWNED", v, "recording a %s step is conditional" % var))
-                arg = canon(v, v.origin(v.blocks[ps[0]]["term"]["args"][1]))
-                okp = arg[0] == "agg" and arg[1] == "adt" and arg[4] == comp and arg[2]
-                if okp:
-                    payload = arg[2][0]
+                for a in v.alts(v.origin(args[-1]), 0, frozenset([cur])):
+                    a = canon(v, a)
+                    if a[0] == "agg" and a[1] == "adt" and npath(a[3]) == "ValuePointerComponent" and a[2]:
+                        comps.setdefault(a[4], []).append((x, c.base(), a[2][0]))
+                    else:
+                        unknown_push = True
+            if not pushes or unknown_push and not comps:
+                fs.append(und("C19.OWNED", v, "the steps are not collected by pushing components inside the loop: table not extracted (undecided)"))
+            else:
+                arm_regs = {}
+                for var in ("Key", "Index"):
+                    tv = v.variant_target(info, var)
+                    arm_regs[var] = skeleton.dominated(v, tv) & body if tv is not None else set()
+                for var, fld in (("Key", "key"), ("Index", "index")):
+                    got = comps.get(var, [])
+                    if len(got) != 1:
+                        fs.append(fnd("C19.OWNED", v, "a %s step does not push exactly one component (%d pushes can add a %s component)" % (var, len(got), var)))
+                        continue
+                    x, meth, payload = got[0]
+                    payload = strip_refs(payload)
                     if var == "Key":
-                        okp = payload[0] == "call" and call_name(v, payload) == "std::string::ToString::to_string" and _cur_field(v, payload[3][0], cur, "Key", "key")
+                        okp = payload[0] == "call" and call_name(v, payload) in ("std::string::ToString::to_string", "std::convert::From::from", "std::borrow::ToOwned::to_owned",
+                                                                                   "std::convert::Into::into", "std::string::String::from") and payload[3] and \
+                            _cur_field(v, payload[3][0], cur, "Key", "key")
                     else:
                         okp = _cur_field(v, payload, cur, "Index", "index")
-                if not okp:
-                    fs.append(fnd("C19.OWNED", v, "a %s step is not recorded as Component::%s(that %s)" % (var, comp, fld), ps[0], fmt(arg)))
-                pushes[var] = ps[0]
-                # cur = prev
-                nxt = [d for d in v.whole_defs(cur) if d[0] == "stmt" and d[1] in reg]
-                if not (len(nxt) == 1 and _cur_field(v, canon(v, v.origin_rv(nxt[0][3]["rv"], nxt[0][1])), cur, var, "prev")):
-                    fs.append(fnd("C19.OWNED", v, "after a %s step the walk does not continue with the previous pointer" % var))
-            # exactly one reversal, result path = that vector
-            revs = [x for x, c in v.calls() if c.fn is not None and c.name in ("rev", "reverse")]
-            if len(revs) != 1:
-                fs.append(fnd("C19.OWNED", v, "the collected components are reversed %d times (exactly once is required)" % len(revs)))
-            rets = assigned_in(v, v.reach)
-            okr = False
-            for rb, t in rets:
-                if t[0] == "agg" and t[1] == "adt" and npath(t[3]) == "ValuePointer":
-                    src = t[2][0]
-                    coll_l = None
-                    for x in pushes.values():
-                        a0 = strip_refs(v.origin(v.blocks[x]["term"]["args"][0]))
-                        coll_l = a0
-                    if term_mentions(src, lambda y: y == coll_l) or (coll_l and coll_l[0] == "call" and term_mentions(src, lambda y: y[0] == "call" and y[1] == coll_l[1])):
-                        okr = True
-            if not okr:
-                fs.append(fnd("C19.OWNED", v, "the owned pointer's path is not the vector of collected components"))
+                    if not okp:
+                        fs.append(fnd("C19.OWNED", v, "a %s step is not recorded as Component::%s(that %s)" % (var, var, fld), x, fmt(payload)))
+                    # the push happens for this variant on every path: it is in the arm, or after the arms joined (tuple form)
+                    if x in arm_regs[var]:
+                        if any(v.blocks[y]["term"]["k"] == "switch" for y in arm_regs[var] if v.dominates(y, x) and y != x):
+                            fs.append(fnd("C19.OWNED", v, "recording a %s step is conditional" % var))
+                    elif not all(v.postdominates(x, y) for y in [v.variant_target(info, var)] if y is not None):
+                        fs.append(fnd("C19.OWNED", v, "recording a %s step is conditional" % var))
+                    # cur = prev of this variant
+                    nxts = set()
+                    for d in v.whole_defs(cur):
+                        if d[0] == "stmt" and d[1] in body:
+                            for a in v.alts(v.origin_rv(d[3]["rv"], d[1]), 0, frozenset([cur])):
+                                nxts.add(strip_refs(canon(v, a)))
+                    if not any(_cur_field(v, a, cur, var, "prev") for a in nxts):
+                        fs.append(fnd("C19.OWNED", v, "after a %s step the walk does not continue with the previous pointer" % var))
+                    if any(a[0] == "field" and a[3] != "prev" for a in nxts):
+                        fs.append(fnd("C19.OWNED", v, "the walk continues with something else than the previous pointer"))
+                # siblings agree: both kinds of step are added the same way (same method, same collection)
+                if len(comps.get("Key", [])) == 1 and len(comps.get("Index", [])) == 1:
+                    kx, km, _ = comps["Key"][0]
+                    ix, im, _ = comps["Index"][0]
+                    kc = strip_refs(v.origin(v.blocks[kx]["term"]["args"][0]))
+                    ic = strip_refs(v.origin(v.blocks[ix]["term"]["args"][0]))
+                    if km != im or kc != ic:
+                        fs.append(fnd("C19.OWNED", v, "key steps and index steps are not collected the same way (%s vs %s): their relative order is lost" % (km, im), kx))
+                    # order: pushed at the back while walking leaf -> origin, hence exactly one reversal; pushed at the front, none
+                    revs = [x for x, c in v.calls() if c.fn is not None and c.name in ("rev", "reverse")]
+                    want_rev = 0 if km.endswith("push_front") else 1
+                    if km.endswith("::push") or km.endswith("push_back") or km.endswith("push_front"):
+                        if len(revs) != want_rev:
+                            fs.append(fnd("C19.OWNED", v, "the collected components are reversed %d times (%d required for %s while walking towards the origin)" % (len(revs), want_rev, km.split("::")[-1])))
+                    else:
+                        fs.append(und("C19.OWNED", v, "components are collected with %s: order not decided" % km))
+                    rets = assigned_in(v, v.reach)
+                    okr = False
+                    for rb, tt in rets:
+                        if tt[0] == "agg" and tt[1] == "adt" and npath(tt[3]) == "ValuePointer":
+                            src = tt[2][0]
+                            coll_l = kc
+                            if term_mentions(src, lambda y: y == coll_l) or (coll_l and coll_l[0] == "call" and term_mentions(src, lambda y: y[0] == "call" and y[1] == coll_l[1])):
+                                okr = True
+                    if not okr:
+                        fs.append(fnd("C19.OWNED", v, "the owned pointer's path is not the vector of collected components"))
     res.add("C19.OWNED", ob, fs)
     res.samples = [{"function": "to_owned", "table": "Origin: stop; Key: push Key(key.to_string()), cur = prev; Index: push Index(index), cur = prev; one reversal"},
                    {"function": "first_field", "table": "Origin: None; Index: first_field(prev); Key: first_field(prev).or(Some(key))"},
